@@ -276,6 +276,10 @@ def preprocess_signature(entry):
             # guards introduced by `?` on the conversion result are the same in every entry
             if 'Try>::branch' in g:
                 continue
+            # ... and so is the same test written by hand (`match map.convert_ref(..) { Ok(map) => map, Err(e) => return Err(e) }`): a
+            # preprocessor of the converted map exists on the Ok side only
+            if g.startswith('discr(') and 'Beatmap::convert_ref(' in g and lab == 'Ok':
+                continue
             norm.append((g, lab))
         out.add((p, tuple(norm)))
     return out
